@@ -109,7 +109,7 @@ double max_herm_eig(const Mat& A){
 }
 double fro(const Mat& A){ double s=0; for(unsigned i=0;i<A.d;i++) for(unsigned j=0;j<A.d;j++) s+=std::norm(A.m[i][j]); return std::sqrt(s); }
 
-struct Call{ int kind; unsigned n; Mat A; uint64_t bitseed; int bitmode,runmax; // kind 0: matrix_exponential
+struct Call{ int kind; unsigned n; Mat A; uint64_t bitseed; int bitmode,runmax; bool view; // kind 0: matrix_exponential (view: input and output are blocks of larger matrices)
              std::vector<double> vcomp,acomp; double s;                              // kind 1: a.UTransform(v, i*s)
              std::vector<double> vdelta; };                                          // kind 2: the same, twice: v is updated in place (v += delta) between the calls
 struct CallResult{ int rc; std::string what; Mat X; std::vector<double> out; long draws,forced; };
@@ -118,11 +118,23 @@ struct CallResult{ int rc; std::string what; Mat X; std::vector<double> out; lon
 void perform(const Call& c,CallResult& r){
   BitStream bs; bs.start(c.bitseed,c.bitmode,c.runmax); tl_bits=&bs;
   if(c.kind==0){
-    gsl_matrix_complex* A=gsl_matrix_complex_alloc(c.n,c.n); gsl_matrix_complex* E=gsl_matrix_complex_alloc(c.n,c.n);
-    for(unsigned i=0;i<c.n;i++) for(unsigned j=0;j<c.n;j++){ gsl_matrix_complex_set(A,i,j,gsl_complex_rect(c.A.m[i][j].real(),c.A.m[i][j].imag())); gsl_matrix_complex_set(E,i,j,gsl_complex_rect(NAN,NAN)); }
+    // a gsl matrix need not own contiguous rows: in part of the calls input and output are blocks inside larger matrices (row stride > n)
+    unsigned pr=c.view?c.n+2:c.n,pc=c.view?c.n+3:c.n,r0=c.view?1:0,c0=c.view?2:0;
+    gsl_matrix_complex* PA=gsl_matrix_complex_alloc(pr,pc); gsl_matrix_complex* PE=gsl_matrix_complex_alloc(pr,pc);
+    for(unsigned i=0;i<pr;i++) for(unsigned j=0;j<pc;j++){ gsl_matrix_complex_set(PA,i,j,gsl_complex_rect(7.0+i,-3.0-j)); gsl_matrix_complex_set(PE,i,j,gsl_complex_rect(NAN,NAN)); }
+    gsl_matrix_complex_view VA=gsl_matrix_complex_submatrix(PA,r0,c0,c.n,c.n),VE=gsl_matrix_complex_submatrix(PE,r0,c0,c.n,c.n);
+    gsl_matrix_complex* A=&VA.matrix; gsl_matrix_complex* E=&VE.matrix;
+    for(unsigned i=0;i<c.n;i++) for(unsigned j=0;j<c.n;j++) gsl_matrix_complex_set(A,i,j,gsl_complex_rect(c.A.m[i][j].real(),c.A.m[i][j].imag()));
     r.rc=lib_call([&]{ squids::math_detail::matrix_exponential(E,A); }); r.what=g_what;
     r.X=Mat(c.n); for(unsigned i=0;i<c.n;i++) for(unsigned j=0;j<c.n;j++){ gsl_complex z=gsl_matrix_complex_get(E,i,j); r.X.m[i][j]=cplx(GSL_REAL(z),GSL_IMAG(z)); }
-    gsl_matrix_complex_free(A); gsl_matrix_complex_free(E);
+    if(c.view && r.rc==CALL_OK){
+      // nothing outside the blocks may have been touched
+      for(unsigned i=0;i<pr;i++) for(unsigned j=0;j<pc;j++){ bool inside=(i>=r0&&i<r0+c.n&&j>=c0&&j<c0+c.n); if(inside) continue;
+        gsl_complex a=gsl_matrix_complex_get(PA,i,j),e=gsl_matrix_complex_get(PE,i,j);
+        if(GSL_REAL(a)!=7.0+i||GSL_IMAG(a)!=-3.0-j||!std::isnan(GSL_REAL(e))){ r.rc=CALL_EXCEPTION; r.what="an element outside the input or output block was modified"; } }
+      for(unsigned i=0;i<c.n;i++) for(unsigned j=0;j<c.n;j++){ gsl_complex a=gsl_matrix_complex_get(A,i,j); if(GSL_REAL(a)!=c.A.m[i][j].real()||GSL_IMAG(a)!=c.A.m[i][j].imag()){ r.rc=CALL_EXCEPTION; r.what="the input matrix was modified"; } }
+    }
+    gsl_matrix_complex_free(PA); gsl_matrix_complex_free(PE);
   }else{
     r.rc=lib_call([&]{
       squids::SU_vector a(c.acomp),v(c.vcomp);
@@ -166,7 +178,7 @@ struct ExpEngine: Engine{
       double cap=(cls==0||cls==1||cls==2||cls==8)?1e3:50.0; if(cls==7) cap=20.0; if(norm>cap) norm=cap*r.uniform(0.3,1.0);
       if(r.chance(0.02)) norm=0.0;
       o["norm"]=norm; o["vs"]=(long long)r.below(100000000);
-      o["bitseed"]=(long long)(r.next()>>2); o["bitmode"]=r.chance(0.3)?1:0; o["runmax"]=r.range(1,64); o["repeat"]=r.chance(0.3);
+      o["bitseed"]=(long long)(r.next()>>2); o["bitmode"]=r.chance(0.3)?1:0; o["runmax"]=r.range(1,64); o["repeat"]=r.chance(0.3); o["view"]=r.chance(0.25);
       o["s"]=r.chance(0.5)?r.uniform(-3,3):std::pow(10.0,r.uniform(-3,2.5))*(r.chance(0.5)?1:-1);
       ops.push(o);
     }
@@ -191,6 +203,7 @@ struct ExpEngine: Engine{
         int cls=(int)(o["cls"].as_int(0)%10); double norm=o["norm"].as_num(1.0); if(!(norm>=0)) norm=1.0; if(norm>1e3) norm=1e3;
         c.bitseed=(uint64_t)o["bitseed"].as_int(1); c.bitmode=(int)(o["bitmode"].as_int(0)&1); c.runmax=(int)std::max(1LL,std::min(64LL,o["runmax"].as_int(8)));
         c.s=o["s"].as_num(1.0); if(!(std::fabs(c.s)<1e3)) c.s=1.0;
+        c.view=o["view"].as_bool(false); if(c.view&&c.kind==0) ctr.add("cover_block_view_input");
         uint64_t vs=(uint64_t)o["vs"].as_int(1);
         std::string kind=c.kind==0?"exp":(c.kind==1?"utransform":"utransform2");
         if(trace_ops){ printf("O %zu %s C07\n",i,kind.c_str()); fflush(stdout); }
